@@ -59,9 +59,9 @@ def make(kind, card=None, via="ctor"):
     import odml
     name, meth, _ = KINDS[kind]
     if kind == "val":
-        o = odml.Property("p", dtype="int", **({name: card} if via == "ctor" else {}))
+        o = odml.Property(u"p \u00fc\u65e5", dtype="int", **({name: card} if via == "ctor" else {}))
     else:
-        o = odml.Section("s", "t", **({name: card} if via == "ctor" else {}))
+        o = odml.Section(u"s \u00e4\u672c", "t", **({name: card} if via == "ctor" else {}))
     return o
 
 
